@@ -67,7 +67,8 @@ K_A = "pipeline.photon_collection.p1.arguments.a"
 K_T = "detector.environment.temperature"
 K_LST = "pipeline.charge_generation.m1.arguments.lst"
 K_EN2 = "pipeline.charge_collection.m2.enabled"
-KEYS = {"inc": K_INC, "a": K_A, "T": K_T, "lst": K_LST, "en2": K_EN2}
+K_RT = "observation.readout.times"
+KEYS = {"inc": K_INC, "a": K_A, "T": K_T, "lst": K_LST, "en2": K_EN2, "rt": K_RT}
 PKS = ("mem", "lst", "dct", "both")
 PRIORS = ("fresh", "memory", "filled", "both")
 READOUTS = ("1", "2d", "2nd")
@@ -160,6 +161,8 @@ def space_def(space):
         return "sequential", [("inc", [1.0 + s, 2.0 + s]), ("T", [150.0 + s, 250.0 + s])]
     if space == "custom":
         return "custom", [("inc", [1.0 + s, 2.0 + s]), ("a", [10.0 + s, 20.0 + s])]
+    if space == "rtimes":      # the readout times themselves (a key addressing the observation, not the processor)
+        return "product", [("rt", [[1.0], [2.0], [4.0]])]
     if space == "seqen2":      # the enabled flag of a model that is disabled in the caller's configuration
         return "sequential", [("inc", [1.0 + s, 2.0 + s]), ("en2", [True, False])]
     if space == "seqlst":      # a list-valued argument (which the model mutates in place) next to a scalar one
@@ -173,6 +176,8 @@ def variants(space):
         out += [["subset", list(c)] for k in (1, 2) for c in itertools.combinations(range(3), k)]
         out += [["fault", i] for i in range(3)]
         return out
+    if space == "rtimes":
+        return [["id"], ["rev"]]                   # (the fault is triggered by a model argument: not applicable here)
     return [["id"], ["rev"], ["fault", 0], ["fault", 1]]
 
 
@@ -209,7 +214,9 @@ def enumerate_cases(tier, seed):
     for pk in pks:
         for prior in priors:
             for ro in ros:
-                for space in ("inc3", "incxa", "seqincT", "custom", "seqen2", "seqlst"):
+                for space in ("inc3", "incxa", "seqincT", "custom", "seqen2", "seqlst", "rtimes"):
+                    if space == "rtimes" and ro != "1":
+                        continue                    # the swept times replace the readout: one base readout is enough
                     if space == "seqlst" and pk not in ("lst", "both"):
                         continue                    # only these pipelines have the list argument
                     for ex in ("seq", "dask"):
@@ -223,14 +230,17 @@ def enumerate_cases(tier, seed):
     for pk in (PKS if thorough else ("both",)):
         for prior in (PRIORS if thorough else ("both",)):
             cases.append({"part": "arch", "pk": pk, "prior": prior})
+    for pk in (PKS if thorough else ("mem", "both")):
+        for prior in (PRIORS if thorough else ("fresh", "both")):
+            cases.append({"part": "calin", "pk": pk, "prior": prior})
     return cases
 
 
 def expected_size(tier, seed):
     nvar = 15 + 3 * 4
     if tier == "thorough":
-        return 4 * 4 * 3 * 2 * (nvar + 4) + 2 * 4 * 3 * 2 * 4 + 4 * 4 * 6 + 16
-    return 2 * 2 * 2 * 2 * (nvar + 4) + 1 * 2 * 2 * 2 * 4 + 4 * 2 * 6 + 1
+        return 4 * 4 * 3 * 2 * (nvar + 4) + 2 * 4 * 3 * 2 * 4 + 4 * 4 * 1 * 2 * 2 + 4 * 4 * 6 + 16 + 16
+    return 2 * 2 * 2 * 2 * (nvar + 4) + 1 * 2 * 2 * 2 * 4 + 2 * 2 * 1 * 2 * 2 + 4 * 2 * 6 + 1 + 4
 
 
 # ---------------------------------------------------------------- the check
@@ -269,6 +279,8 @@ def run_case(case):
         return run_obs(case)
     if case["part"] == "cal":
         return run_cal(case)
+    if case["part"] == "calin":
+        return run_calin(case)
     return run_arch(case)
 
 
@@ -310,6 +322,25 @@ def run_obs(case):
             return Observation(parameters=pv, mode=mode, readout=readout, with_dask=(ex == "dask"), **kw)
 
         def entry_of(ds, i, elem):
+            if space == "rtimes":
+                # the two executions lay this sweep out differently: sequential keeps a run index and a sparse `time`
+                # axis, dask relabels `time` with the swept tuples; the i-th run's frames are extracted either way
+                out = {}
+                for v in [v for v in VARS if v in ds]:
+                    da = ds[v]
+                    if "readout_time_id" in da.dims:
+                        sub = da.isel(readout_time_id=i)
+                        for d in [d for d in sub.dims if d not in ("time", "y", "x")]:
+                            sub = sub.isel({d: 0})
+                        arr = np.asarray(sub.transpose("time", "y", "x").values, dtype=float)
+                        arr = arr[[t for t in range(arr.shape[0]) if not np.isnan(arr[t]).all()]]
+                    else:
+                        sub = da.isel(time=[i])
+                        if ex == "dask":
+                            sub = sub.compute()
+                        arr = np.asarray(sub.transpose("time", "y", "x").values, dtype=float)
+                    out[v] = arr
+                return out
             if mode == "product":
                 sel = select_by_labels(ds, {KEYS[k]: float(v) for k, v in elem.items()}, enabled_keys)
             else:
@@ -323,7 +354,10 @@ def run_obs(case):
             for i, elem in enumerate(elems):
                 if skip_poisoned and poison is not None and elem.get("inc", configured()["inc"]) == poison:
                     continue
-                want = standalone(pk, prior, ro, elem)
+                if "rt" in elem:
+                    want = standalone(pk, prior, ro, {}, readout=mk.readout(list(elem["rt"])))
+                else:
+                    want = standalone(pk, prior, ro, elem)
                 try:
                     got = entry_of(ds, i, elem)
                 except Problem as p:
@@ -456,6 +490,71 @@ def run_cal(case):
         shutil.rmtree(tmp, ignore_errors=True)
     return {"viol": viol, "sig": cfgx.sig(["cal", pk, prior, sorted(fits)]), "nontrivial": len(fits) >= 2,
             "n": max(1, len(fits)), "outcome": {"fitness": fits}}
+
+
+def run_calin(case):
+    """calibration with `result_input_arguments`: one processor per (target, input value); the caller's objects must
+    not receive the input values, and the fitness is the sum over the pairs of standalone exposures"""
+    from pyxel.calibration.fitness import sum_of_abs_residuals
+    from pyxel.exposure import Readout
+    from pyxel.observation import ParameterValues
+    from pyxel.pipelines import Processor
+
+    from vp import calib
+
+    pk, prior = case["pk"], case["prior"]
+    viol = []
+    s = _s()
+
+    def bad(code, what, **extra):
+        key = {"part": "calin", "code": code}
+        key.update(extra)
+        viol.append((key, f"[calibration with input arguments pipeline={pk} caller-history={prior}] {what}"))
+
+    tmp = tempfile.mkdtemp(prefix="vp_c06_")
+    fits = []
+    try:
+        temps = [150.0 + s, 250.0 + s]
+        targets, files = [], []
+        for i, _t in enumerate(temps):
+            t = np.arange(6.0).reshape(ROWS, COLS) * (i + 1) + s
+            fn = os.path.join(tmp, f"target{i}.npy")
+            np.save(fn, t)
+            targets.append(t)
+            files.append(fn)
+        cal = calib.calibration(files, [ParameterValues(key=K_INC, values="_", boundaries=(0.0, 10.0)),
+                                        ParameterValues(key=K_A, values="_", boundaries=(0.0, 100.0))],
+                                fit_range=(0, ROWS, 0, COLS), pygmo_seed=1 + s, population_size=8, generations=1,
+                                result_input_arguments=[ParameterValues(key=K_T, values=list(temps))])
+        det, pipe = make_objects(pk, prior)
+        proc = Processor(detector=det, pipeline=pipe)
+        before = snapshot.snapshot([det, pipe])
+        try:
+            problem, _ = calib.real_problem(cal, proc)
+            d = snapshot.diff(before, snapshot.snapshot([det, pipe]), ignore=IGNORE)
+            if d:
+                bad("caller-changed", f"building the problem changed the caller's objects: {snapshot.fmt(d)}",
+                    where=_where(d[0][0]), stage="build")
+            for dv in ([1.0 + s, 10.0], [2.0 + s, 20.0]):
+                got = float(problem.fitness(np.array(dv, dtype=float))[0])
+                want = 0.0
+                for t, tgt in zip(temps, targets):
+                    ref = standalone(pk, prior, "1", {"inc": dv[0], "a": dv[1], "T": t}, readout=Readout())
+                    want += float(sum_of_abs_residuals(simulated=ref["pixel"][0], target=tgt, weighting=np.ones_like(tgt)))
+                fits.append(want)
+                if got != want:
+                    bad("fitness-differs-from-standalone", f"fitness of candidate {dv} is {got!r}; the standalone exposures "
+                        f"of the (target, input) pairs sum to {want!r}")
+                    break
+        except Exception as e:  # noqa: BLE001
+            bad("raised", f"{type(e).__name__}: {str(e)[:300]}")
+        d = snapshot.diff(before, snapshot.snapshot([det, pipe]), ignore=IGNORE)
+        if d and not any(k["code"] == "caller-changed" for k, _ in viol):
+            bad("caller-changed", f"the caller's objects changed: {snapshot.fmt(d)}", where=_where(d[0][0]), stage="fitness")
+    finally:
+        shutil.rmtree(tmp, ignore_errors=True)
+    return {"viol": viol, "sig": cfgx.sig(["calin", pk, prior, fits]), "nontrivial": len(fits) >= 2, "n": max(1, len(fits)),
+            "outcome": {"fitness": fits}}
 
 
 def run_arch(case):
